@@ -10,12 +10,33 @@ from vf.shrink import shrink_list
 CFGS = [(3, 360), (5, 600), (8, 960), (R.REAL_PERIOD, R.REAL_TIMESPAN)]
 
 
-def gen_case(rnd, cfg, n_blocks, p_mut, cats, **opts):
+def gen_deep(rnd):
+    """parameters of a fabricated deep base just below a REAL retarget boundary (period 10,080)"""
+    k = rnd.choice([17, 17, 20, 100, 400])
+    below = rnd.choice([1, 2, 3, 3])
+    H = R.REAL_PERIOD * k - below
+    tip_ts = 1_700_000_000 + rnd.randrange(0, 10 ** 6)
+    f = rnd.choice([0.25, 0.5, 1.0, 1.0, 2.0, 4.0, 16.0])
+    texp = rnd.choice([250, 252, 254, 254])
+    return {"H": H, "tip_ts": tip_ts, "target": (1 << texp).to_bytes(32, "big").hex(),
+            "special": {str(R.REAL_PERIOD * (k - 1)): tip_ts - int(R.REAL_TIMESPAN * f) + rnd.randrange(-500, 500)}}
+
+
+def deep_ts_at(deep):
+    sp = {int(k): v for k, v in deep["special"].items()}
+    return lambda h: sp.get(h, deep["tip_ts"] - 10_000_000 + h % 16)
+
+
+def gen_case(rnd, cfg, n_blocks, p_mut, cats, deep=None, **opts):
     """label-level generation only (no code under test involved)"""
     from vf.histgen import Gen
     from vf import build
-    g0 = R.dec_block(build.GENESIS)[0]
-    gen = Gen(rnd, g0.ts, int.from_bytes(g0.target, "big"), cfg[0], cfg[1], **opts)
+    if deep is None:
+        g0 = R.dec_block(build.GENESIS)[0]
+        gen = Gen(rnd, g0.ts, int.from_bytes(g0.target, "big"), cfg[0], cfg[1], **opts)
+    else:
+        gen = Gen(rnd, deep["tip_ts"], int(deep["target"], 16), cfg[0], cfg[1], base_height=deep["H"],
+                  base_ts_at=deep_ts_at(deep), **opts)
     ops = []
     for _ in range(n_blocks):
         op, fees = gen.honest_block()
@@ -35,7 +56,10 @@ def gen_case(rnd, cfg, n_blocks, p_mut, cats, **opts):
         op["form"] = "bytes" if rnd.random() < 0.3 else "obj"
         ops.append(op)
         gen.commit(op, fees)
-    return {"cfg": list(cfg), "ops": ops}
+    out = {"cfg": list(cfg), "ops": ops}
+    if deep is not None:
+        out["deep"] = deep
+    return out
 
 
 class Run:
@@ -48,11 +72,19 @@ class Run:
         self.build = build
         self.case = case
         self.focus = focus                     # clause prefixes this check owns, e.g. ("C01",)
-        self.world = build.World(R.Config(case["cfg"][0], case["cfg"][1]))
         from skepticoin.coinstate import CoinState
         from skepticoin.datatypes import Block
         self.Block = Block
-        self.cs = CoinState.zero()
+        cfg = R.Config(case["cfg"][0], case["cfg"][1])
+        if case.get("deep"):
+            from vf import deepbase
+            d = case["deep"]
+            led, tip, self.cs = deepbase.make(d["H"], d["tip_ts"], bytes.fromhex(d["target"]),
+                                              {int(k): v for k, v in d["special"].items()}, cfg)
+            self.world = build.World(cfg, uni=led)
+        else:
+            self.world = build.World(cfg)
+            self.cs = CoinState.zero()
         self.fails = []
         self.stats = {}
         self.nontrivial = False
@@ -168,14 +200,15 @@ def replay(case, focus):
 def shrink_case(case, focus, sig, budget_s):
     def still(ops):
         try:
-            return any(f["sig"] == sig for f in Run({"cfg": case["cfg"], "ops": ops}, focus).execute())
+            c = dict(case, ops=ops)
+            return any(f["sig"] == sig for f in Run(c, focus).execute())
         except Exception:
             return False
     ops = shrink_list(case["ops"], still, budget_s)
-    return {"cfg": case["cfg"], "ops": ops}
+    return dict(case, ops=ops)
 
 
-def drive(res, seed_, n_hist, tier, focus, cats, pid, n_blocks=(6, 14), p_mut=0.4, **opts):
+def drive(res, seed_, n_hist, tier, focus, cats, pid, n_blocks=(6, 14), p_mut=0.4, p_deep=0.0, **opts):
     """Hypothesis is the generator engine; failures are collected (bucketed by signature) and shrunk afterwards."""
     found = {}
 
@@ -184,7 +217,11 @@ def drive(res, seed_, n_hist, tier, focus, cats, pid, n_blocks=(6, 14), p_mut=0.
               suppress_health_check=list(hypothesis.HealthCheck), phases=[hypothesis.Phase.generate])
     @given(st.randoms(use_true_random=False), st.sampled_from(CFGS[:3] + CFGS[:3] + CFGS[3:]), st.integers(*n_blocks))
     def prop(rnd, cfg, nb):
-        case = gen_case(rnd, cfg, nb, p_mut, cats, **opts)
+        if p_deep and rnd.random() < p_deep:
+            case = gen_case(rnd, CFGS[3], min(nb, 8), p_mut, cats, deep=gen_deep(rnd), **opts)
+            res.count("deep_histories")
+        else:
+            case = gen_case(rnd, cfg, nb, p_mut, cats, **opts)
         run = Run(case, focus)
         try:
             fails = run.execute()
